@@ -4,7 +4,7 @@
 prop=$1; commit=$2
 W=$(mktemp -d /tmp/rvXXXX); rmdir $W
 git -C /repo worktree add -q --detach $W HEAD || exit 2
-V=$(mktemp -d /tmp/rvvXXXX); cp /verif/known_findings.json $V/; mkdir -p $V/checker; ln -s /verif/checker/fixtures $V/checker/fixtures
+V=$(mktemp -d /tmp/rvvXXXX); cp /verif/known_findings.json /verif/reference_funcs.json $V/ 2>/dev/null; mkdir -p $V/checker; ln -s /verif/checker/fixtures $V/checker/fixtures
 if git -C $W revert --no-commit $commit > $V/r.log 2>&1; then
   (cd $W && GOFLAGS=-mod=mod GOPROXY=off go build ./... 2>&1 | head -3)
   /verif/bin/hpfscheck -repo $W -verif $V -property $prop | grep -E '^  rule|quick:' | cut -c1-300 | head -${RV_LINES:-4}
